@@ -144,6 +144,112 @@ Proof.
     split; [exact Hwf|]. intros P HP. discriminate.
 Qed.
 
+(* ---- the same for pair tables of any polarity (Manchester tables, inverted tables): the body is described by
+   "zero-free, at most mx long" only; the frame then has to get its leading mark from the lead-in and its trailing
+   space from the lead-out (a negative gap, or a frame period the frame fits into) *)
+Definition nz_tableb (t : ptable) : bool := forallb (fun p => negb (fst p =? 0) && negb (snd p =? 0)) t.
+Definition maxsymA (t : ptable) : Z := fold_right (fun p m => Z.max (Z.abs (fst p) + Z.abs (snd p)) m) 0 t.
+Lemma maxsymA_ge t p : In p t -> Z.abs (fst p) + Z.abs (snd p) <= maxsymA t.
+Proof. induction t as [|q t IH]; intros H; [destruct H|]. cbn [maxsymA fold_right]. destruct H as [->|H]; [lia|]. specialize (IH H). unfold maxsymA in IH. lia. Qed.
+Lemma maxsymA_nonneg t : 0 <= maxsymA t.
+Proof. induction t as [|q t IH]; cbn [maxsymA fold_right]; [lia|]. unfold maxsymA in IH. lia. Qed.
+
+Definition bodyW (mx : Z) (l : list Z) : Prop := nonzero l /\ sum_abs l <= mx.
+Lemma bodyW_app m1 l1 m2 l2 : bodyW m1 l1 -> bodyW m2 l2 -> bodyW (m1 + m2) (l1 ++ l2).
+Proof. intros [A1 A2] [B1 B2]. split; [apply nonzero_app; auto|rewrite sum_abs_app; lia]. Qed.
+
+Lemma render_data_bodyW t syms : nz_tableb t = true -> Forall (fun i => (i < List.length t)%nat) syms ->
+  bodyW (Z.of_nat (List.length syms) * maxsymA t) (render_data t syms).
+Proof.
+  intros Hnz Hs. unfold nz_tableb in Hnz. rewrite forallb_forall in Hnz.
+  induction syms as [|i syms IH]; [split; [constructor|cbn; lia]|].
+  inversion Hs as [|? ? Hi Hs']; subst. destruct (IH Hs') as [I1 I2].
+  unfold render_data. cbn [flat_map]. fold (render_data t syms). unfold sym.
+  destruct (nth_error t i) as [[m s]|] eqn:E; [|apply nth_error_None in E; lia].
+  pose proof (nth_error_In _ _ E) as Hin. specialize (Hnz _ Hin). pose proof (maxsymA_ge t _ Hin) as Hmx. cbn [fst snd] in *.
+  cbn [app]. split; [constructor; [lia|constructor; [lia|exact I1]]|].
+  rewrite !sum_abs_cons. cbn [List.length]. rewrite Nat2Z.inj_succ. lia.
+Qed.
+
+Fixpoint fields_specW (t : ptable) (xs : list iw) : Z :=
+  match xs with
+  | [] => 0
+  | x :: r => Z.of_nat (symcount (List.length t) (nbits x)) * maxsymA t + fields_specW t r
+  end.
+Fixpoint pos_specW (t : ptable) (ps : list pos_item) : option Z :=
+  match ps with
+  | [] => Some 0
+  | PTimings x :: r => match pos_specW t r with
+                       | Some m => Some (Z.of_nat (symcount (List.length t) (nbits x)) * maxsymA t + m)
+                       | None => None end
+  | PConst l :: r => match pos_specW t r with
+                     | Some m => if forallb (fun x => negb (x =? 0)) l then Some (sum_abs l + m) else None
+                     | None => None end
+  end.
+
+Lemma field_bodyW msb t x : nz_tableb t = true -> (List.length t = 2 \/ List.length t = 4 \/ List.length t = 16)%nat ->
+  exists l, field_durations msb (pairs_to_table t) x = Ok l /\
+            bodyW (Z.of_nat (symcount (List.length t) (nbits x)) * maxsymA t) l.
+Proof.
+  intros Hnz Hlen. destruct (symbols_total msb (List.length t) x Hlen) as [syms [E1 [E2 [E3 _]]]].
+  exists (render_data t syms). unfold field_durations.
+  replace (List.length (pairs_to_table t)) with (List.length t) by (unfold pairs_to_table; rewrite map_length; reflexivity).
+  rewrite E1. cbn [bind]. split; [apply lookup_syms_pairs; exact E3|].
+  rewrite <- E2. apply render_data_bodyW; assumption.
+Qed.
+
+Lemma fields_specW_sound msb t xs : nz_tableb t = true -> (List.length t = 2 \/ List.length t = 4 \/ List.length t = 16)%nat ->
+  exists l, fields_durations msb (pairs_to_table t) xs = Ok l /\ bodyW (fields_specW t xs) l.
+Proof.
+  intros Hnz Hlen. induction xs as [|x xs [l [E1 E2]]].
+  - exists []. split; [reflexivity|]. split; [constructor|cbn; lia].
+  - destruct (field_bodyW msb t x Hnz Hlen) as [a [F1 F2]].
+    exists (a ++ l). cbn [fields_durations]. rewrite F1, E1. cbn [bind]. split; [reflexivity|].
+    cbn [fields_specW]. apply bodyW_app; assumption.
+Qed.
+
+Lemma pos_specW_sound msb t ps m : nz_tableb t = true -> (List.length t = 2 \/ List.length t = 4 \/ List.length t = 16)%nat ->
+  pos_specW t ps = Some m -> exists l, pos_durations msb (pairs_to_table t) ps = Ok l /\ bodyW m l.
+Proof.
+  intros Hnz Hlen. revert m. induction ps as [|p ps IH]; intros m H.
+  - cbn in H. injection H as <-. exists []. split; [reflexivity|]. split; [constructor|cbn; lia].
+  - destruct p as [x|c]; cbn [pos_specW] in H; destruct (pos_specW t ps) as [m'|] eqn:E; try discriminate.
+    + injection H as <-. destruct (IH m' eq_refl) as [l [E1 E2]].
+      destruct (field_bodyW msb t x Hnz Hlen) as [a [F1 F2]].
+      exists (a ++ l). cbn [pos_durations]. rewrite F1, E1. cbn [bind]. split; [reflexivity|]. apply bodyW_app; assumption.
+    + destruct (forallb (fun x => negb (x =? 0)) c) eqn:Ec; [|discriminate]. injection H as <-.
+      destruct (IH m' eq_refl) as [l [E1 E2]].
+      exists (c ++ l). cbn [pos_durations]. rewrite E1. cbn [bind]. split; [reflexivity|].
+      apply bodyW_app; [|exact E2]. split; [apply forallb_nonzero; exact Ec|lia].
+Qed.
+
+Definition packet_okW (li lo : list Z) (m : Z) : bool :=
+  nzb li && nzb lo && head_pos li &&
+  match last_opt lo with
+  | Some last => if 0 <? last then sum_abs li + m + sum_abs (removelast lo) <? last else true
+  | None => false
+  end.
+
+Theorem packet_okW_sound li lo m body : packet_okW li lo m = true -> bodyW m body ->
+  frame_wf (build_packet li lo body) /\
+  (forall P, last_opt lo = Some P -> 0 < P -> sum_abs (build_packet li lo body) = P).
+Proof.
+  intros H [Hbnz Hbs]. unfold packet_okW in H.
+  apply andb_true_iff in H as [H H4]. apply andb_true_iff in H as [H H3]. apply andb_true_iff in H as [H1 H2].
+  apply forallb_nonzero in H1. apply forallb_nonzero in H2.
+  destruct li as [|a li']; [discriminate|]. cbn [head_pos] in H3.
+  assert (nonzero ((a :: li') ++ body ++ lo)) as Hnz by (apply nonzero_app; split; [exact H1|apply nonzero_app; split; assumption]).
+  destruct (last_opt lo) as [last|] eqn:El; [|discriminate].
+  pose proof (removelast_last _ _ El) as Elo.
+  assert (last <> 0) as Hl0 by (rewrite Elo in H2; apply nonzero_app in H2 as [_ H2]; inversion H2; auto).
+  destruct (build_packet_wf (a :: li') lo body Hnz) as [Hwf Hp].
+  - exists a, (li' ++ body ++ lo). split; [reflexivity|lia].
+  - rewrite El. destruct (0 <? last) eqn:Ep.
+    + right. split; [lia|]. split; [rewrite !sum_abs_app; lia|]. exists a, (li' ++ body ++ removelast lo). split; [reflexivity|lia].
+    + left. lia.
+  - split; [exact Hwf|]. rewrite El in Hp. intros P [= <-] HP. apply Hp. exact HP.
+Qed.
+
 (* ---- parts, frames, whole encode paths *)
 Definition part_ok (p : part) : bool :=
   match p with
@@ -151,11 +257,16 @@ Definition part_ok (p : part) : bool :=
   | PPacket li lo bursts msb pos fields =>
       match as_pairs bursts with
       | Some t =>
-          std_tableb t && len_ok (List.length t) &&
-          match pos_spec t pos with
-          | Some (e1, m1) => let '(e2, m2) := fields_spec t fields in packet_ok li lo (e1 && e2) (m1 + m2)
-          | None => false
-          end
+          (std_tableb t && len_ok (List.length t) &&
+           match pos_spec t pos with
+           | Some (e1, m1) => let '(e2, m2) := fields_spec t fields in packet_ok li lo (e1 && e2) (m1 + m2)
+           | None => false
+           end)
+          || (nz_tableb t && len_ok (List.length t) &&
+              match pos_specW t pos with
+              | Some m1 => packet_okW li lo (m1 + fields_specW t fields)
+              | None => false
+              end)
       | None => false
       end
   end.
@@ -187,7 +298,16 @@ Theorem part_ok_sound p : part_ok p = true ->
 Proof.
   destruct p as [li lo bursts msb pos fields|l]; cbn [part_ok render_part part_sum].
   - destruct (as_pairs bursts) as [t|] eqn:Et; [|discriminate]. apply as_pairs_table in Et. subst bursts.
-    intros H. apply andb_true_iff in H as [H H3]. apply andb_true_iff in H as [H1 H2].
+    intros H. apply orb_true_iff in H as [H|H].
+    2:{ apply andb_true_iff in H as [H H3]. apply andb_true_iff in H as [H1 H2]. apply len_ok_sound in H2.
+        destruct (pos_specW t pos) as [m1|] eqn:Ep; [|discriminate].
+        destruct (pos_specW_sound msb t pos m1 H1 H2 Ep) as [a [Ea Hba]].
+        destruct (fields_specW_sound msb t fields H1 H2) as [b [Eb Hbb]].
+        rewrite Ea, Eb. cbn [bind]. exists (build_packet li lo (a ++ b)). split; [reflexivity|].
+        destruct (packet_okW_sound li lo (m1 + fields_specW t fields) (a ++ b) H3 (bodyW_app _ _ _ _ Hba Hbb)) as [Hwf Hp].
+        split; [exact Hwf|]. intros s Hs. destruct (last_opt lo) as [P|] eqn:El; [|discriminate].
+        destruct (0 <? P) eqn:EP; [|discriminate]. injection Hs as <-. apply Hp; [reflexivity|lia]. }
+    apply andb_true_iff in H as [H H3]. apply andb_true_iff in H as [H1 H2].
     apply std_tableb_sound in H1. apply len_ok_sound in H2.
     destruct (pos_spec t pos) as [[e1 m1]|] eqn:Ep; [|discriminate].
     destruct (fields_spec t fields) as [e2 m2] eqn:Ef.
